@@ -16,8 +16,12 @@ NA = {
 "C16":"Level-slice sufficiency compares two pure authorizations; the slice is computed in-process, not fetched through a seam.",
 "C17":"The manifest loader trait is crate-private with only the in-memory slicer; from outside slice_entities is a pure function.",
 "C18":"Symbolic compilation on literal environments is pure term construction; the solver I/O is explicitly outside the property."}
-PENDING = {k:"claimed in DESIGN.md section 4 but its world is not implemented yet in this commit (under construction)" for k in ["C01","C08","C19","C20"]}
+PENDING = {k:"claimed in DESIGN.md section 4 but its world is not implemented yet in this commit (under construction)" for k in ["C08","C19","C20"]}
 CHECKS = {
+"C01": dict(world="authz", cat="exploration", ref="DESIGN.md 4.1",
+  text="Seeded search over histories of policy-set edits, store edits and authorization calls against one long-lived Authorizer; every response (decision, reason set, erroring ids) is compared with an exact reference model (three-valued atom evaluator + decision table); purity is decided by re-issuing requests on unchanged state and by rebuilding the same logical state on fresh threads under other hash orders, permuted insertion orders and respelled / auto-numbered policy ids.",
+  note="Trusted: the harness's ~150-line atom evaluator and decision table, the getrandom interposition. The atom family is workload (scope forms, when/unless, type errors, overflow, missing attributes/entities), not the whole expression language. Errors compared as id sets; messages and vector order not compared.",
+  tech="deterministic simulation: seeded call/edit histories + hash-order, insertion-order and id-spelling replicas vs exact reference model"),
 "C15": dict(world="batched", cat="exploration", ref="DESIGN.md 4.4",
   text="Seeded search over (validated policy set, conformant store with absent entities, request, delivery-fault plan of a simulated entity-store service behind the EntityLoader seam) with every iteration budget 0..=n+1 enumerated per scenario; each batched call is compared with ordinary authorization over the same store; monotonicity in the budget and bounded liveness (budget n+1 decides) are checked over the recorded per-budget history.",
   note="Trusted: the real strict validator / schema-based entity and request validation as precondition filters, Authorizer::is_authorized as reference, the harness's counting of distinct entity ids. Assumes re-delivery of already delivered entities is within the loader contract.",
